@@ -5,6 +5,7 @@ package c17
 import (
 	"fmt"
 	"math/rand"
+	"os"
 	"strings"
 
 	"verifharness/core"
@@ -16,7 +17,7 @@ var (
 	c17ValidNames   = []string{"a", "proj", "my-app_1", "0x", "k8s"}
 	c17InvalidNames = []string{"Up", "_lead", "-x", "a.b", "a b", "é", "K", "a/b", "xİ", "__"}
 	// name: templates of compose files
-	c17FileNames = []string{"fromfile", "My.App", "___", "${NM}", "${NM:-dflt}", "${COMPOSE_PROJECT_NAME:-viacpn}", "pre-${V}", "$$x", "", "${UNSET_VAR}", "-_Lead9", "Kelvin", "日本"}
+	c17FileNames    = []string{"fromfile", "My.App", "___", "${NM}", "${NM:-dflt}", "${COMPOSE_PROJECT_NAME:-viacpn}", "pre-${V}", "$$x", "", "${UNSET_VAR}", "-_Lead9", "Kelvin", "日本"}
 	c17BadFileNames = []string{"${", "${REQ?need}", "${NM:?}", "$ {x}", "${NM", "a$b", "${1}", "${V:-${", "${}"}
 	c17DirNames     = []string{"proj", "MyProj.Dir", "_-lead", "日本", "K8s", "...", "ÀB", "UPPER", "with space", "-", "a-b_c", "xİz", "9", "é1"}
 	c17EnvKeys      = []string{"V", "W", "R", "NM", "COMPOSE_PROJECT_NAME"}
@@ -497,6 +498,18 @@ func c17Glue(ctx *core.Ctx, a c17Args) c17Args {
 }
 
 func runC17(ctx *core.Ctx) {
+	if os.Getenv("VERIF_C17_DEV") == "prof" { // development: only the round-6 streams
+		c17ProfileLattice(ctx)
+		for i := 0; i < 600; i++ {
+			a := c17ProfileGlue(ctx, c17Random(ctx.Rng, i%3 != 0, false))
+			if i%4 == 0 {
+				a = c17Glue(ctx, a)
+			}
+			ctx.Add("c17load", a.wire())
+		}
+		c17PnLattice(ctx)
+		return
+	}
 	// 0. NormalizeProjectName on every code point (blocks), then on strings
 	blocks := 0
 	for from := 0; from < 0x110000; from += 0x1000 {
@@ -534,6 +547,7 @@ func runC17(ctx *core.Ctx) {
 	c17Lattice(ctx)
 	c17WorkdirLattice(ctx)
 	c17ConfigLattice(ctx)
+	c17ProfileLattice(ctx)
 	ctx.Res.Exhaustive = true
 
 	// 2. seeded random worlds: documented order (spec oracle applies), then any order (model correspondence + invariants)
@@ -554,6 +568,16 @@ func runC17(ctx *core.Ctx) {
 	for i := 0; i < ctx.Pick(1500, 60000); i++ {
 		a := c17Glue(ctx, c17Random(ctx.Rng, i%3 != 0, false))
 		ctx.Count("glue")
+		ctx.Add("c17load", a.wire())
+	}
+	// 2b'. round 6: WithProfiles / WithDefaultProfiles anywhere among the other options (the last call decides; the
+	// fallback reads COMPOSE_PROFILES of the project environment as it is at that point)
+	for i := 0; i < ctx.Pick(1500, 40000); i++ {
+		a := c17ProfileGlue(ctx, c17Random(ctx.Rng, i%3 != 0, false))
+		if i%4 == 0 {
+			a = c17Glue(ctx, a)
+		}
+		ctx.Count("profile-glue")
 		ctx.Add("c17load", a.wire())
 	}
 	// 2c. the loader-level entry: SetProjectName(name, imperative) × SkipInterpolation × nil/non-nil environment
